@@ -3,6 +3,7 @@
 From CG3 Require Import Lib.PyZ Lib.Val Lib.PySlice Model.View Spec.ViewSpec Proofs.ViewProofs Proofs.ViewSeqProofs.
 From CG3 Require Import Model.Serial Spec.SerialSpec.
 From CG3 Require Model.IndelMap Spec.IndelMapSpec Proofs.IndelMapOps Proofs.IndelMapSlice.
+From CG3 Require Lib.Rose Model.Tree Model.TreeJson Proofs.NewickMoreProofs.
 From Coq Require Import Permutation.
 
 (** * dictionaries *)
@@ -351,7 +352,7 @@ Proof.
   intros [[Hwf Hfit] Hclean] Hd. unfold seq_to_dict in Hd. injection Hd as <-.
   destruct s as [[v p k hid] nm inf]. cbn [s_core s_name s_info sv parent skind] in *.
   unfold seq_of_dict_old. jget_simpl. cbn [get_str bind]. rewrite kind_of_label_of. cbn [bind].
-  destruct (view_to_dict SOld v p nm) as [| | | | |vd] eqn:Evd; try discriminate.
+  destruct (view_to_dict SOld v p nm) as [| | | | |vd|] eqn:Evd; try discriminate.
   cbn [get_obj bind]. rewrite (view_decode_old SOld v p nm vd Hwf Evd). cbn [bind].
   rewrite get_opt_str_jopt. cbn [bind]. rewrite info_roundtrip. cbn [bind get_int_default].
   set (L := zlen (rich_seq v p)). set (ao := parent_start v).
@@ -452,9 +453,9 @@ Lemma aligned_roundtrip_lemma a d : aligned_ok a -> aligned_to_dict a = JObj d -
 Proof.
   intros [Hm Hs] Hd. unfold aligned_to_dict in Hd. injection Hd as <-.
   unfold aligned_of_dict. jget_simpl.
-  destruct (imap_to_dict (a_map a)) as [| | | | |md] eqn:Em; try discriminate.
+  destruct (imap_to_dict (a_map a)) as [| | | | |md|] eqn:Em; try discriminate.
   cbn [get_obj bind]. rewrite (imap_roundtrip_lemma _ md Hm Em). cbn [bind].
-  destruct (seq_to_dict SOld (a_seq a)) as [| | | | |sd] eqn:Es; try discriminate.
+  destruct (seq_to_dict SOld (a_seq a)) as [| | | | |sd|] eqn:Es; try discriminate.
   cbn [get_obj bind]. destruct (seq_roundtrip_old_lemma _ sd Hs Es) as (s' & Hdec & Hobs).
   rewrite Hdec. cbn [bind]. eexists. split; [reflexivity|]. cbn [a_map a_seq].
   split; [reflexivity|]. split; [exact Hobs|].
@@ -468,7 +469,7 @@ Lemma rows_roundtrip rows : Forall aligned_ok rows ->
 Proof.
   induction 1 as [|a rows Ha _ IH]; [exists []; split; reflexivity|].
   destruct IH as (rows' & Hr & Ho). cbn [map rows_of_dicts].
-  destruct (aligned_to_dict a) as [| | | | |rd] eqn:Ea; try discriminate.
+  destruct (aligned_to_dict a) as [| | | | |rd|] eqn:Ea; try discriminate.
   destruct (aligned_roundtrip_lemma a rd Ha Ea) as (a' & Hdec & _ & _ & Hobs).
   rewrite Hdec. cbn [bind]. rewrite Hr. cbn [bind]. exists (a' :: rows'). split; [reflexivity|].
   cbn [map]. now rewrite Hobs, Ho.
@@ -665,6 +666,197 @@ Proof.
   apply (seq_roundtrip_lemma st _ d); [split; assumption|exact Hd].
 Qed.
 
+(** * trees *)
+
+Lemma zeqb_str_eqb a b : zeqb a b = Rose.str_eqb a b.
+Proof. revert b. induction a as [|x a IH]; intros [|y b]; cbn; try reflexivity; try (now rewrite IH). Qed.
+
+Lemma jget_dict_set n k v d : jget n (dict_set k v d) = if zeqb n k then Some v else jget n d.
+Proof.
+  induction d as [|[k' v'] d IH]; cbn [dict_set jget]; [reflexivity|].
+  destruct (zeqb k k') eqn:E.
+  - apply zeqb_eq in E. subst k'. cbn [jget]. destruct (zeqb n k); reflexivity.
+  - cbn [jget]. destruct (zeqb n k') eqn:E2; [|exact IH].
+    destruct (zeqb n k) eqn:E3; [|reflexivity].
+    apply zeqb_eq in E2, E3. subst. rewrite zeqb_refl in E. discriminate.
+Qed.
+
+Lemma attr_get_found a n f : Tree.attr_get a n f = match Tree.attr_get a n None with Some x => Some x | None => f end.
+Proof.
+  revert f. induction a as [|[k v] a IH]; intros f; cbn [Tree.attr_get]; [reflexivity|].
+  rewrite IH. rewrite (IH (if Rose.str_eqb k n then Some v else None)).
+  destruct (Tree.attr_get a n None); [reflexivity|]. destruct (Rose.str_eqb k n); reflexivity.
+Qed.
+
+Definition enc_len (l : option Z) : json := JObj [(k_length, len_to_json l)].
+
+Lemma jget_attrs_gen a n : forall d,
+  jget n (fold_left (fun d kv => dict_set (fst kv) (enc_len (snd kv)) d) a d) =
+  match Tree.attr_get a n None with Some v => Some (enc_len v) | None => jget n d end.
+Proof.
+  induction a as [|[k v] a IH]; intros d; cbn [fold_left Tree.attr_get fst snd]; [reflexivity|].
+  rewrite IH, (attr_get_found a n (if Rose.str_eqb k n then Some v else None)), jget_dict_set.
+  destruct (Tree.attr_get a n None); [reflexivity|].
+  rewrite zeqb_str_eqb. destruct (Rose.str_eqb n k) eqn:E.
+  - apply Rose.str_eqb_eq in E. subst. now rewrite Rose.str_eqb_refl.
+  - destruct (Rose.str_eqb k n) eqn:E2; [|reflexivity].
+    apply Rose.str_eqb_eq in E2. subst. rewrite Rose.str_eqb_refl in E. discriminate.
+Qed.
+
+Lemma jget_attrs a n : jget n (attrs_to_dict a) =
+  match Tree.attr_get a n None with Some v => Some (enc_len v) | None => None end.
+Proof. unfold attrs_to_dict. apply (jget_attrs_gen a n []). Qed.
+
+Lemma apply_attr_dict_eq a t : apply_attr_dict (attrs_to_dict a) t = Tree.apply_attrs a t.
+Proof.
+  induction t as [n l cs IH] using Rose.tree_ind'.
+  cbn [apply_attr_dict Tree.apply_attrs]. rewrite jget_attrs. f_equal.
+  - destruct (Tree.attr_get a n None) as [[z|]|]; reflexivity.
+  - apply map_ext_in. intros c Hc. rewrite Forall_forall in IH. exact (IH c Hc).
+Qed.
+
+(** the model's dict decoder computes exactly C09's [json_roundtrip_fixed] *)
+Lemma tree_of_dict_eq t d : tree_to_dict t = JObj d -> tree_of_dict d = lift_tree (TreeJson.json_roundtrip_fixed t).
+Proof.
+  intros Hd. unfold tree_to_dict in Hd. injection Hd as <-.
+  unfold tree_of_dict, TreeJson.json_roundtrip_fixed. jget_simpl. cbn [get_str get_obj bind].
+  destruct (Tree.make_tree false (TreeJson.newick_node_qb true t)) as [t'|e]; cbn [lift_tree bind]; [|reflexivity].
+  now rewrite apply_attr_dict_eq.
+Qed.
+
+Lemma tree_roundtrip_lemma t d : NewickMoreProofs.rt_ok_json t = true -> tree_to_dict t = JObj d -> tree_of_dict d = Ok t.
+Proof.
+  intros Hok Hd. rewrite (tree_of_dict_eq t d Hd), (NewickMoreProofs.json_roundtrip_fixed_id t Hok). reflexivity.
+Qed.
+
+(** * tables *)
+
+Lemma mem_str_In k l : mem_str k l = true <-> In k l.
+Proof.
+  induction l as [|x l IH]; cbn [mem_str]; [split; [discriminate|intros []]|].
+  rewrite orb_true_iff, zeqb_eq, IH. cbn [In]. split; intros [H|H]; [left; now symmetry|right; exact H|left; now symmetry|right; exact H].
+Qed.
+
+Definition enc_col (c : column) : list Z * json := (c_name c, col_to_json c).
+
+Lemma jget_skip_cols k pre rest : ~ In k (map c_name pre) ->
+  jget k (map enc_col pre ++ rest) = jget k rest.
+Proof.
+  induction pre as [|c pre IH]; intros Hn; [reflexivity|].
+  change (map enc_col (c :: pre) ++ rest) with ((c_name c, col_to_json c) :: (map enc_col pre ++ rest)).
+  cbn [map] in Hn. rewrite jget_skip.
+  - apply IH. intros H. apply Hn. right. exact H.
+  - destruct (zeqb k (c_name c)) eqn:E; [|reflexivity]. apply zeqb_eq in E. exfalso. apply Hn. left. now symmetry.
+Qed.
+
+Definition recol (c : column) : column := mkCol (c_name c) (redtype (c_dtype c)) (c_values c).
+
+Lemma cols_decode n : forall cs pre seen nr,
+  cols_okb cs n seen = true -> (forall k, In k (map c_name pre) -> In k seen) ->
+  (nr = None \/ nr = Some n) ->
+  cols_of_dict (map (fun c => JStr (c_name c)) cs) (map enc_col (pre ++ cs)) nr seen = Ok (map recol cs).
+Proof.
+  induction cs as [|c cs IH]; intros pre seen nr Hok Hpre Hnr; [reflexivity|].
+  cbn [cols_okb] in Hok. repeat (apply andb_true_iff in Hok; destruct Hok as [Hok ?]).
+  rename H into Hrest, H0 into Hlen, H1 into Hsc, H2 into Hseen. rename Hok into Hstr.
+  apply negb_true_iff in Hseen.
+  assert (HD : jget (c_name c) (map enc_col (pre ++ c :: cs)) = Some (col_to_json c)).
+  { rewrite map_app. cbn [map]. rewrite jget_skip_cols.
+    - change (enc_col c) with (c_name c, col_to_json c). apply jget_here.
+    - intros Hin. apply Hpre in Hin. apply mem_str_In in Hin. congruence. }
+  set (D := map enc_col (pre ++ c :: cs)) in *.
+  cbn [map cols_of_dict]. rewrite HD. unfold col_to_json at 1. cbn [get_obj bind]. jget_simpl.
+  rewrite Hsc, Hstr, Hseen. cbn [negb orb].
+  assert (Hz : zlen (c_values c) = n) by lia.
+  replace (match nr with Some n0 => negb (n0 =? 0) && negb (zlen (c_values c) =? n0) | None => false end) with false.
+  2:{ destruct Hnr as [->| ->]; [reflexivity|]. rewrite Hz, Z.eqb_refl. cbn [negb]. now rewrite andb_false_r. }
+  assert (HDeq : D = map enc_col ((pre ++ [c]) ++ cs)) by (unfold D; now rewrite <- app_assoc).
+  rewrite HDeq, IH.
+  - cbn [bind]. reflexivity.
+  - exact Hrest.
+  - intros k Hk. rewrite map_app, in_app_iff in Hk. cbn [map In] in Hk. cbn [In]. destruct Hk as [Hk|Hk]; [right; apply Hpre; exact Hk|left; tauto].
+  - right. destruct Hnr as [->| ->]; [now rewrite Hz|]. destruct (n =? 0) eqn:E; [|reflexivity]. rewrite Hz. reflexivity.
+Qed.
+
+Lemma find_col_recol n cs : find_col n (map recol cs) = option_map recol (find_col n cs).
+Proof.
+  induction cs as [|c cs IH]; [reflexivity|]. cbn [map find_col recol c_name].
+  destruct (zeqb n (c_name c)); [reflexivity|exact IH].
+Qed.
+
+Lemma check_index_recol ix cs : check_index ix (map recol cs) = check_index ix cs.
+Proof.
+  destruct ix as [n|]; [|reflexivity]. cbn [check_index]. rewrite find_col_recol.
+  destruct (find_col n cs); reflexivity.
+Qed.
+
+(** the decoder on what the encoder wrote: index, attributes, column names, order and cells come back; the dtype
+    strings come back as [redtype] of what was written *)
+Lemma table_decode_lemma t d : table_okb t = true -> table_to_dict t = JObj d ->
+  table_of_dict d = Ok (mkTab (t_index t) (t_attrs t) (map recol (t_cols t))).
+Proof.
+  intros Hok Hd. unfold table_to_dict in Hd. injection Hd as <-.
+  unfold table_okb in Hok. apply andb_true_iff in Hok. destruct Hok as [Hcols Hix].
+  unfold table_of_dict. jget_simpl. cbn [get_obj bind]. rewrite zeqb_refl. cbn [negb].
+  rewrite get_opt_str_jopt. cbn [bind]. jget_simpl. cbn [get_obj bind]. jget_simpl. cbn [get_obj bind].
+  pose proof (cols_decode _ (t_cols t) [] [] None Hcols ltac:(intros k []) ltac:(left; reflexivity)) as Hdec.
+  cbn [app] in Hdec. unfold enc_col in Hdec. rewrite Hdec. cbn [bind]. rewrite check_index_recol.
+  destruct (check_index (t_index t) (t_cols t)); [|discriminate]. reflexivity.
+Qed.
+
+Lemma map_recol_stable cs : forallb (fun c => zeqb (redtype (c_dtype c)) (c_dtype c)) cs = true -> map recol cs = cs.
+Proof.
+  induction cs as [|c cs IH]; [reflexivity|]. cbn [forallb map]. intros H. apply andb_true_iff in H. destruct H as [H1 H2].
+  rewrite (IH H2). apply zeqb_eq in H1. unfold recol. rewrite H1. destruct c; reflexivity.
+Qed.
+
+(** every table: observed equal (index, attributes, column order, names, cells) *)
+Lemma table_roundtrip_lemma t d : table_okb t = true -> table_to_dict t = JObj d ->
+  exists t', table_of_dict d = Ok t' /\ observe_table t' = observe_table t /\ table_dtypes t' = map redtype (table_dtypes t).
+Proof.
+  intros Hok Hd. rewrite (table_decode_lemma t d Hok Hd). eexists. split; [reflexivity|].
+  unfold observe_table, table_dtypes. cbn [t_index t_attrs t_cols]. rewrite !map_map. split; reflexivity.
+Qed.
+
+(** tables without a text column: the identical table, dtype strings included *)
+Lemma table_roundtrip_exact_lemma t d : table_okb t = true -> dtypes_stable t = true -> table_to_dict t = JObj d ->
+  table_of_dict d = Ok t.
+Proof.
+  intros Hok Hst Hd. rewrite (table_decode_lemma t d Hok Hd). unfold dtypes_stable in Hst.
+  rewrite (map_recol_stable _ Hst). destruct t; reflexivity.
+Qed.
+
+(** a text column does NOT keep its dtype: "U96" (3 characters) is read as 96 characters and written as "U3072";
+    every further round trip multiplies the item size by 32 (finding C10-F13) *)
+Lemma table_text_dtype_refuted_lemma :
+  exists t d t', table_okb t = true /\ table_to_dict t = JObj d /\ table_of_dict d = Ok t' /\ t' <> t /\
+    table_dtypes t = [[85; 57; 54]] /\ table_dtypes t' = [[85; 51; 48; 55; 50]].
+Proof.
+  exists (mkTab None [] [mkCol [97] [85; 57; 54] [JStr [120; 121; 122]]]).
+  eexists. eexists. split; [vm_compute; reflexivity|]. split; [reflexivity|].
+  split; [vm_compute; reflexivity|]. split; [discriminate|]. split; reflexivity.
+Qed.
+
+(** * dict arrays, NotCompleted *)
+
+Lemma names_of_json_map l : names_of_json (map JArr l) = Ok l.
+Proof. induction l as [|x l IH]; [reflexivity|]. cbn [map names_of_json]. rewrite IH. reflexivity. Qed.
+
+Lemma darr_roundtrip_lemma a d : darr_okb a = true -> darr_to_dict a = JObj d -> darr_of_dict d = Ok a.
+Proof.
+  intros Hok Hd. unfold darr_to_dict in Hd. injection Hd as <-.
+  unfold darr_of_dict. jget_simpl. rewrite names_of_json_map. cbn [bind].
+  unfold darr_okb in Hok. rewrite Hok. destruct a; reflexivity.
+Qed.
+
+Lemma nc_roundtrip_lemma n d : nc_okb n = true -> nc_to_dict n = JObj d -> nc_of_dict d = Ok n.
+Proof.
+  intros Hok Hd. unfold nc_to_dict in Hd. injection Hd as <-.
+  unfold nc_okb in Hok. apply andb_true_iff in Hok. destruct Hok as [Ha Hk].
+  unfold nc_of_dict. jget_simpl. cbn [get_obj bind]. jget_simpl.
+  rewrite Ha, Hk. cbn [negb]. destruct n; reflexivity.
+Qed.
+
 (** * [deserialise_object . to_rich_dict] on every modelled type, through the registry *)
 
 Ltac dispatch_to D :=
@@ -675,17 +867,17 @@ Ltac dispatch_to D :=
 Lemma roundtrip_via_registry_lemma x : obj_ok x ->
   exists y, deserialise_object (to_dict x) = Ok y /\ observe y = observe x.
 Proof.
-  destruct x as [v p sid|st s|m|a|k inf rows]; cbn [obj_ok to_dict].
+  destruct x as [v p sid|st s|m|a|k inf rows|t|t|a|n]; cbn [obj_ok to_dict].
   - (* bare view *)
     intros [Hwf Hfit].
-    destruct (view_to_dict SOld v p sid) as [| | | | |d] eqn:Ed; try discriminate.
+    destruct (view_to_dict SOld v p sid) as [| | | | |d|] eqn:Ed; try discriminate.
     destruct (view_roundtrip_lemma v p sid d Hwf Hfit Ed) as (v' & sg & Hdec & _ & Hobs).
     pose proof Ed as Ed'. unfold view_to_dict in Ed'. injection Ed' as Ed'.
     subst d. unfold deserialise_object. jget_simpl. dispatch_to DSeqView.
     cbn [run_decoder]. rewrite Hdec. cbn [bind]. eexists. split; [reflexivity|]. cbn [observe]. now rewrite Hobs.
   - (* sequence, either implementation *)
     intros Hok.
-    destruct (seq_to_dict st s) as [| | | | |d] eqn:Ed; try discriminate.
+    destruct (seq_to_dict st s) as [| | | | |d|] eqn:Ed; try discriminate.
     destruct (seq_roundtrip_lemma st s d Hok Ed) as (s' & Hdec & Hobs).
     pose proof Ed as Ed'. unfold seq_to_dict in Ed'. injection Ed' as Ed'.
     subst d. unfold deserialise_object. jget_simpl.
@@ -695,25 +887,58 @@ Proof.
       (eexists; split; [reflexivity|]; cbn [observe]; now rewrite Hobs).
   - (* indel map *)
     intros Hwf.
-    destruct (imap_to_dict m) as [| | | | |d] eqn:Ed; try discriminate.
+    destruct (imap_to_dict m) as [| | | | |d|] eqn:Ed; try discriminate.
     pose proof (imap_roundtrip_lemma m d Hwf Ed) as Hdec.
     pose proof Ed as Ed'. unfold imap_to_dict in Ed'. injection Ed' as Ed'.
     subst d. unfold deserialise_object. jget_simpl. dispatch_to DIndelMap.
     cbn [run_decoder]. rewrite Hdec. cbn [bind]. eexists. split; reflexivity.
   - (* aligned row *)
     intros Hok.
-    destruct (aligned_to_dict a) as [| | | | |d] eqn:Ed; try discriminate.
+    destruct (aligned_to_dict a) as [| | | | |d|] eqn:Ed; try discriminate.
     destruct (aligned_roundtrip_lemma a d Hok Ed) as (a' & Hdec & _ & _ & Hobs).
     pose proof Ed as Ed'. unfold aligned_to_dict in Ed'. injection Ed' as Ed'.
     subst d. unfold deserialise_object. jget_simpl. dispatch_to DAligned.
     cbn [run_decoder]. rewrite Hdec. cbn [bind]. eexists. split; [reflexivity|]. cbn [observe]. now rewrite Hobs.
   - (* alignment *)
     intros Hok.
-    destruct (alignment_to_dict k inf rows) as [| | | | |d] eqn:Ed; try discriminate.
+    destruct (alignment_to_dict k inf rows) as [| | | | |d|] eqn:Ed; try discriminate.
     destruct (alignment_roundtrip_lemma k inf rows d Hok Ed) as (rows' & Hdec & Hobs).
     pose proof Ed as Ed'. unfold alignment_to_dict in Ed'. injection Ed' as Ed'.
     subst d. unfold deserialise_object. jget_simpl. dispatch_to DSeqCollections.
     cbn [run_decoder]. rewrite Hdec. cbn [bind]. eexists. split; [reflexivity|]. cbn [observe]. now rewrite Hobs.
+  - (* tree *)
+    intros Hok.
+    destruct (tree_to_dict t) as [| | | | |d|] eqn:Ed; try discriminate.
+    pose proof (tree_roundtrip_lemma t d Hok Ed) as Hdec.
+    pose proof Ed as Ed'. unfold tree_to_dict in Ed'. injection Ed' as Ed'.
+    subst d. unfold deserialise_object. jget_simpl. dispatch_to DTree.
+    cbn [run_decoder]. rewrite Hdec. cbn [bind]. eexists. split; reflexivity.
+  - (* table *)
+    intros Hok.
+    destruct (table_to_dict t) as [| | | | |d|] eqn:Ed; try discriminate.
+    destruct (table_roundtrip_lemma t d Hok Ed) as (t' & Hdec & Hobs & _).
+    pose proof Ed as Ed'. unfold table_to_dict in Ed'. injection Ed' as Ed'.
+    subst d. unfold deserialise_object. jget_simpl. dispatch_to DTabular.
+    cbn [run_decoder]. jget_simpl.
+    replace (is_suffix s_Table ty_table) with true by (vm_compute; reflexivity).
+    rewrite Hdec. cbn [bind]. eexists. split; [reflexivity|]. cbn [observe]. now rewrite Hobs.
+  - (* dict array *)
+    intros Hok.
+    destruct (darr_to_dict a) as [| | | | |d|] eqn:Ed; try discriminate.
+    pose proof (darr_roundtrip_lemma a d Hok Ed) as Hdec.
+    pose proof Ed as Ed'. unfold darr_to_dict in Ed'. injection Ed' as Ed'.
+    subst d. unfold deserialise_object. jget_simpl. dispatch_to DTabular.
+    cbn [run_decoder]. jget_simpl.
+    replace (is_suffix s_Table ty_dictarray) with false by (vm_compute; reflexivity).
+    replace (is_infix s_dictarray (lower ty_dictarray)) with true by (vm_compute; reflexivity).
+    rewrite Hdec. cbn [bind]. eexists. split; reflexivity.
+  - (* NotCompleted *)
+    intros Hok.
+    destruct (nc_to_dict n) as [| | | | |d|] eqn:Ed; try discriminate.
+    pose proof (nc_roundtrip_lemma n d Hok Ed) as Hdec.
+    pose proof Ed as Ed'. unfold nc_to_dict in Ed'. injection Ed' as Ed'.
+    subst d. unfold deserialise_object. jget_simpl. dispatch_to DNotCompleted.
+    cbn [run_decoder]. rewrite Hdec. cbn [bind]. eexists. split; reflexivity.
 Qed.
 
 (** * what the bare view dict does NOT keep *)
@@ -804,7 +1029,7 @@ Proof.
   destruct st; cbn [seq_of_dict].
   - (* old style *)
     unfold seq_of_dict_old. jget_simpl. cbn [get_str bind]. rewrite kind_of_label_of. cbn [bind].
-    destruct (view_to_dict SOld v p nm) as [| | | | |vd] eqn:Evd; try discriminate.
+    destruct (view_to_dict SOld v p nm) as [| | | | |vd|] eqn:Evd; try discriminate.
     cbn [get_obj bind]. rewrite (view_decode_old SOld v p nm vd Hwf Evd). cbn [bind].
     rewrite get_opt_str_jopt. cbn [bind]. rewrite info_roundtrip. cbn [bind get_int_default]. fold L.
     destruct k; cbn [coerce_view].
@@ -850,3 +1075,27 @@ Proof.
   destruct (seq_roundtrip_lemma st s1 d1 Hok1 Hd1) as (s2 & Hdec2 & Hobs2).
   exists s2. split; [exact Hdec2|]. split; [congruence|]. exact (seq_decoded_ok st s1 d1 s2 Hok1 Hd1 Hdec2).
 Qed.
+
+(** * non-vacuity of the guards of the field-copying types *)
+
+Definition ex_table : table :=
+  mkTab (Some [97]) [(k_title, JStr [84]); (k_legend, JStr [])]
+        [ mkCol [97] [105; 110; 116; 54; 52] [JInt 3; JInt 1];
+          mkCol [98; 32; 99] [102; 108; 111; 97; 116; 54; 52] [JFloat [50; 46; 53]; JFloat [49; 101; 45; 48; 57]];
+          mkCol [100] [111; 98; 106; 101; 99; 116] [JStr [120]; JNull] ].
+
+Lemma ex_table_ok : table_okb ex_table = true.
+Proof. vm_compute. reflexivity. Qed.
+
+Definition ex_darr : darr :=
+  mkDarr [[JStr [97]; JStr [98]]; [JStr [120]; JStr [121]; JStr [122]]]
+         (JArr [JArr [JInt 1; JInt 2; JInt 3]; JArr [JInt 4; JInt 5; JInt 6]]).
+
+Lemma ex_darr_ok : darr_okb ex_darr = true.
+Proof. vm_compute. reflexivity. Qed.
+
+Lemma ex_nc_ok : nc_okb (mkNC [JStr [69]; JStr [109; 101]; JStr [98; 97; 100]] [(k_source, JStr [120])]) = true.
+Proof. vm_compute. reflexivity. Qed.
+
+Lemma ex_tree_ok : NewickMoreProofs.rt_ok_json NewickMoreProofs.ex_tree_json = true.
+Proof. exact NewickMoreProofs.ex_tree_json_ok. Qed.
